@@ -169,7 +169,7 @@ func (vc *FuncVC) call(b *ssa.BasicBlock, idx int, ins ssa.Instruction, c *ssa.C
 	siteNo := vc.callSiteN[siteKey]
 	if vc.con != nil {
 		for _, ca := range vc.con.CallAsserts {
-			if !(ca.Callee == key || strings.HasSuffix(key, "."+ca.Callee) || strings.HasSuffix(key, ca.Callee)) {
+			if !(ca.Callee == siteKey || strings.HasSuffix(siteKey, "."+ca.Callee) || strings.HasSuffix(siteKey, ca.Callee)) {
 				continue
 			}
 			if ca.Site != 0 && ca.Site != siteNo {
